@@ -38,9 +38,9 @@ var c15Specs = map[string]c15Spec{
 	"FieldsSetRequired":    {writes: []string{"StructField.Required", "Type.Nullable", "StructType.Fields"}},
 	"FieldsSetNotRequired": {writes: []string{"StructField.Required", "Type.Nullable", "StructType.Fields"}},
 	"FieldsSetDefault":     {writes: []string{"Type.Default", "StructType.Fields"}},
-	"ReplaceReference":     {writes: []string{"Type.Nullable", "Type.Default", "Type.Hints", "ConstantReferenceType.ReferredPkg", "ConstantReferenceType.ReferredType"}, note: "every usage of the reference: type references are rebuilt (nullability, default and hints carried over), constant references are redirected in place"},
+	"ReplaceReference":     {writes: []string{"Type.Nullable", "Type.Default", "Type.Hints", "ConstantReferenceType.ReferredPkg", "ConstantReferenceType.ReferredType", "DisjunctionType.DiscriminatorMapping"}, note: "every usage of the reference: type references are rebuilt (nullability, default and hints carried over), constant references are redirected in place, discriminator mapping entries designating the replaced branch follow (§21)"},
 	"ConstantToEnum":       {writes: []string{"Object.Type"}},
-	"TrimEnumValues":       {writes: []string{"EnumValue.Value"}, all: true},
+	"TrimEnumValues":       {writes: []string{"EnumValue.Value", "Type.Default"}, all: true, note: "the default of the enum designates a member and is trimmed with them (§21)"},
 	"HintObject":           {writes: []string{"Type.Hints"}},
 	"SchemaSetIdentifier":  {writes: []string{"SchemaMeta.Identifier"}},
 	"SchemaSetEntrypoint":  {writes: []string{"Schema.EntryPoint", "Schema.EntryPointType"}},
@@ -197,6 +197,7 @@ func checkC15(ctx *Ctx, r *Report) {
 	c05Visitor(ctx, r)
 	c15ReferenceSiblings(ctx, r)
 	c07ConfigOwnership(ctx, r)
+	c15FifthRound(ctx, r)
 }
 
 // isSelectorTest: cond contains a test of the pass's selector.
@@ -983,4 +984,171 @@ func c15ReferenceSiblings(ctx *Ctx, r *Report) {
 	}
 	r.Count("visitors rewriting references by name", lits)
 	r.Floor("visitors rewriting references by name", 3)
+}
+
+// c15FifthRound — second hunting pass over C15.
+// (a) a transformation designates the objects it acts on with an ObjectReference taken from its configuration; every
+// pass matches it with ObjectReference.Matches / MatchesRef (the letter case of the name is ignored). Handing such a
+// reference to an exact lookup (Locate*) makes one transformation disagree with all the others about what `main.foo`
+// designates. (b) every pass that replaces or renames a reference (its OnRef handler writes a referred type or
+// rebuilds the reference) also rewrites discriminator mappings: it has an OnDisjunction handler storing into
+// DiscriminatorMapping. (c) a pass whose OnEnum handler rewrites the values of the members rewrites the enum's default
+// the same way — the default designates a member by value.
+var c15ExactLookupExempt = map[string]string{
+	"internal/ast/compiler.FilterSchemas.buildAllowList": "allowed_objects is an input filter listing object names, not a transformation's reference: names are compared as written",
+}
+
+func c15FifthRound(ctx *Ctx, r *Report) {
+	p := ctx.Pkg("internal/ast/compiler")
+	if p == nil {
+		return
+	}
+	info := p.TypesInfo
+	refT := ctx.LookupType("internal/ast/compiler", "ObjectReference")
+	// (a)
+	n := 0
+	for _, file := range p.Syntax {
+		for _, d := range file.Decls {
+			fd, ok := d.(*ast.FuncDecl)
+			if !ok || fd.Body == nil {
+				continue
+			}
+			fobj, _ := info.Defs[fd.Name].(*types.Func)
+			ast.Inspect(fd.Body, func(m ast.Node) bool {
+				c, ok := m.(*ast.CallExpr)
+				if !ok {
+					return true
+				}
+				fn := callee(info, c)
+				if fn == nil || !strings.HasPrefix(fn.Name(), "Locate") {
+					return true
+				}
+				through := ""
+				for _, a := range c.Args {
+					ast.Inspect(a, func(q ast.Node) bool {
+						if sel, ok := q.(*ast.SelectorExpr); ok && refT != nil && namedOf(info.TypeOf(sel.X)) == refT && through == "" {
+							through = exprString(sel)
+						}
+						return true
+					})
+				}
+				if through == "" {
+					return true
+				}
+				n++
+				cons := fmt.Sprintf("%s looks up %s", ctx.FuncName(fobj), through)
+				if why, ok := c15ExactLookupExempt[ctx.FuncName(fobj)]; ok {
+					r.OK("selectors/configured-reference-by-matches", cons, c.Pos(), "reviewed: "+why)
+					return true
+				}
+				r.Bad("selectors/configured-reference-by-matches", cons, c.Pos(),
+					fmt.Sprintf("%s hands the configured reference (%s) to the exact lookup %s: every other transformation matches its reference with ObjectReference.Matches, which ignores the letter case — `duplicate_object main.foo` does nothing on a schema holding Foo while `omit main.foo` and `rename_object main.foo` act on it", ctx.FuncName(fobj), through, fn.Name()))
+				return true
+			})
+		}
+	}
+	r.Count("exact lookups fed with a configured object reference", n)
+	if n == 0 {
+		r.OK("selectors/configured-reference-by-matches", "compiler passes", token.NoPos, "no configured reference is handed to an exact lookup")
+	}
+	// (b) and (c): handlers registered in Visitor literals
+	handler := func(cl *ast.CompositeLit, key string) *types.Func {
+		for _, el := range cl.Elts {
+			kv, ok := el.(*ast.KeyValueExpr)
+			if !ok || exprString(kv.Key) != key {
+				continue
+			}
+			if sel, ok := kv.Value.(*ast.SelectorExpr); ok {
+				h, _ := info.Uses[sel.Sel].(*types.Func)
+				return h
+			}
+		}
+		return nil
+	}
+	storesTo := func(fn *types.Func, suffixes ...string) bool {
+		seen := map[*types.Func]bool{}
+		var rec func(fn *types.Func, depth int) bool
+		rec = func(fn *types.Func, depth int) bool {
+			if fn == nil || seen[fn] || depth > 2 {
+				return false
+			}
+			seen[fn] = true
+			fd, _ := ctx.DeclOf(fn)
+			if fd == nil || fd.Body == nil {
+				return false
+			}
+			found := false
+			ast.Inspect(fd.Body, func(m ast.Node) bool {
+				switch x := m.(type) {
+				case *ast.AssignStmt:
+					for _, l := range x.Lhs {
+						txt := exprString(l)
+						for _, s := range suffixes {
+							if strings.HasSuffix(txt, s) || strings.Contains(txt, s+"[") {
+								found = true
+							}
+						}
+					}
+				case *ast.CallExpr:
+					if f := callee(info, x); f != nil && f.Pkg() == p.Types && rec(f, depth+1) {
+						found = true
+					}
+				}
+				return true
+			})
+			return found
+		}
+		return rec(fn, 0)
+	}
+	nb, nc := 0, 0
+	for _, file := range p.Syntax {
+		ast.Inspect(file, func(m ast.Node) bool {
+			cl, ok := m.(*ast.CompositeLit)
+			if !ok {
+				return true
+			}
+			if nt := namedOf(info.TypeOf(cl)); nt == nil || nt.Obj().Name() != "Visitor" {
+				return true
+			}
+			if onRef := handler(cl, "OnRef"); onRef != nil {
+				rebuilds := storesTo(onRef, ".ReferredType", ".ReferredPkg")
+				if !rebuilds {
+					// a handler that answers with a fresh reference replaces it as well
+					if fd, _ := ctx.DeclOf(onRef); fd != nil && fd.Body != nil {
+						ast.Inspect(fd.Body, func(q ast.Node) bool {
+							if c, ok := q.(*ast.CallExpr); ok {
+								if f := callee(info, c); f != nil && f.Name() == "NewRef" {
+									for _, a := range c.Args {
+										ast.Inspect(a, func(k ast.Node) bool {
+											if sel, ok := k.(*ast.SelectorExpr); ok && refT != nil && namedOf(info.TypeOf(sel.X)) == refT {
+												rebuilds = true
+											}
+											return true
+										})
+									}
+								}
+							}
+							return true
+						})
+					}
+				}
+				if rebuilds {
+					nb++
+					onDisj := handler(cl, "OnDisjunction")
+					r.Check(onDisj != nil && storesTo(onDisj, "DiscriminatorMapping"), "siblings/renaming-pass-rewrites-mappings", ctx.FuncName(onRef)+" comes with a handler for discriminator mappings", cl.Pos(), "the pass has an OnDisjunction handler that rewrites the mapping",
+						"the pass changes what references designate (its OnRef handler renames or replaces them) and has no OnDisjunction handler rewriting discriminator mappings: the mapping of `Foo | Baz` keeps `foo: Foo` after the branch became Foo2 — the entry designates no branch, and the Go types can no longer be generated")
+				}
+			}
+			if onEnum := handler(cl, "OnEnum"); onEnum != nil && storesTo(onEnum, ".Value") {
+				nc++
+				r.Check(storesTo(onEnum, ".Default"), "siblings/enum-default-follows-members", ctx.FuncName(onEnum)+" rewrites the default with the members", cl.Pos(), "the handler also rewrites the enum's default",
+					"the pass rewrites the values of the members of an enum and leaves the enum's default, which designates a member by value: the default matches no member any more and the jennies fall back on the first one — the default silently moves to another member")
+			}
+			return true
+		})
+	}
+	r.Count("passes that rename or replace references", nb)
+	r.Count("passes that rewrite enum member values", nc)
+	r.Floor("passes that rename or replace references", 2)
+	r.Floor("passes that rewrite enum member values", 1)
 }
